@@ -34,7 +34,7 @@ func (wu *WindowUpdate) SetIncrement(increment int) {
 }
 
 func (wu *WindowUpdate) Deserialize(fr *FrameHeader) error {
-	if len(fr.payload) < 4 {
+	if len(fr.payload) != 4 {
 		wu.increment = 0
 		return ErrMissingBytes
 	}
